@@ -16,7 +16,9 @@ RULE = ('cases = (table, back-end, algorithm run); runs = from_context default /
         'children / parents / descendants / ancestors of every index, cached top / bottom) for the default, CbO, '
         'Lindig in both directions and Sofia, compared with the end-to-end model and with the inclusion-order spec; '
         'the CbO sequences are also compared with the literal explicit-stack model; '
-        'every result is compared with the Coq model and, '
+        'a rename-history stream (context built under other names, warm-up construction, names re-assigned through '
+        'the public setters, construction under test on the same object, judged against the model of the final '
+        'context); every result is compared with the Coq model and, '
         'independently, with the 2^n closure enumeration concepts_spec; '
         'non-trivial = the table has >= 4 concepts and two objects with equal or nested rows')
 EXHAUSTIVE = {'thorough': 'all boolean tables of shape h x w with h, w <= 4 and h*w <= 12 (incl. 3x4 and 4x3): '
@@ -77,55 +79,74 @@ def n_concepts(t):
     return len(exts)
 
 
-def make_context(case):
+def make_context(case, onames=None, anames=None):
     from fcapy.context import FormalContext
     t = case['table']
-    return FormalContext(data=[list(r) for r in t], object_names=[oname(k) for k in case['onames']],
-                         attribute_names=[aname(k) for k in case['anames']], backend=case['backend'])
+    on = case['onames'] if onames is None else onames
+    an = case['anames'] if anames is None else anames
+    return FormalContext(data=[list(r) for r in t], object_names=[oname(k) for k in on],
+                         attribute_names=[aname(k) for k in an], backend=case['backend'])
 
 
 def _views(c):
     return [canon(c.extent_i), [int(s[1:]) for s in c.extent], canon(c.intent_i), [int(s[1:]) for s in c.intent]]
 
 
+def construct(K, a, ie, lmax, case):
+    """Run construction [a] on the context object K and return what is observed."""
+    from fcapy.lattice import ConceptLattice
+    from fcapy.lattice.formal_concept import FormalConcept
+    from fcapy.algorithms import concept_construction as cca
+    if a == 0:
+        cs = list(ConceptLattice.from_context(K))
+    elif a == 1:
+        cs = list(ConceptLattice.from_context(K, algo='CbO'))
+    elif a == 2:
+        cs = list(ConceptLattice.from_context(K, algo='Lindig', iterate_extents=ie))
+    elif a == 3:
+        cs = list(ConceptLattice.from_context(K, algo='Sofia', L_max=lmax))
+    elif a == 4:
+        cs = list(cca.close_by_one(K))
+    elif a == 5:
+        cs = list(cca.close_by_one_objectwise(K))
+    elif a == 6:
+        cs = list(cca.close_by_one_objectwise_fbarray(K))
+    elif a == 7:
+        cs = list(cca.sofia(K, L_max=lmax))
+    elif a == 8:
+        cs = list(cca.lindig_algorithm(K, iterate_extents=ie))
+    elif a == 9:
+        cs = [FormalConcept.from_objects(list(case['arg']), K, is_extent=case['flag'])]
+    elif a == 10:
+        cs = [FormalConcept.from_objects([oname(k) for k in case['arg']], K, is_extent=case['flag'])]
+    else:
+        kw = {11: {}, 12: {'algo': 'CbO'}, 13: {'algo': 'Lindig', 'iterate_extents': ie},
+              14: {'algo': 'Sofia', 'L_max': lmax}}[a]
+        L = ConceptLattice.from_context(K, **kw)
+        n = len(L)
+        rel = [[canon(L.children(i)), canon(L.parents(i)), canon(L.descendants(i)), canon(L.ancestors(i))]
+               for i in range(n)]
+        return {'concepts': [_views(c) for c in L], 'rel': rel, 'top': canon(L.top), 'bottom': canon(L.bottom)}
+    return [_views(c) for c in cs]
+
+
 def run_impl(case):
     def go():
-        from fcapy.lattice import ConceptLattice
-        from fcapy.lattice.formal_concept import FormalConcept
-        from fcapy.algorithms import concept_construction as cca
-        K = make_context(case)
-        a, ie, lmax = case['algo'], case['ie'], case['lmax']
-        if a == 0:
-            cs = list(ConceptLattice.from_context(K))
-        elif a == 1:
-            cs = list(ConceptLattice.from_context(K, algo='CbO'))
-        elif a == 2:
-            cs = list(ConceptLattice.from_context(K, algo='Lindig', iterate_extents=ie))
-        elif a == 3:
-            cs = list(ConceptLattice.from_context(K, algo='Sofia', L_max=lmax))
-        elif a == 4:
-            cs = list(cca.close_by_one(K))
-        elif a == 5:
-            cs = list(cca.close_by_one_objectwise(K))
-        elif a == 6:
-            cs = list(cca.close_by_one_objectwise_fbarray(K))
-        elif a == 7:
-            cs = list(cca.sofia(K, L_max=lmax))
-        elif a == 8:
-            cs = list(cca.lindig_algorithm(K, iterate_extents=ie))
-        elif a == 9:
-            cs = [FormalConcept.from_objects(list(case['arg']), K, is_extent=case['flag'])]
-        elif a == 10:
-            cs = [FormalConcept.from_objects([oname(k) for k in case['arg']], K, is_extent=case['flag'])]
+        hist = case.get('hist')
+        if not hist:
+            K = make_context(case)
         else:
-            kw = {11: {}, 12: {'algo': 'CbO'}, 13: {'algo': 'Lindig', 'iterate_extents': ie},
-                  14: {'algo': 'Sofia', 'L_max': lmax}}[a]
-            L = ConceptLattice.from_context(K, **kw)
-            n = len(L)
-            rel = [[canon(L.children(i)), canon(L.parents(i)), canon(L.descendants(i)), canon(L.ancestors(i))]
-                   for i in range(n)]
-            return {'concepts': [_views(c) for c in L], 'rel': rel, 'top': canon(L.top), 'bottom': canon(L.bottom)}
-        return [_views(c) for c in cs]
+            # rename history: the context object lived under other names, was mined once (warm-up), and is
+            # renamed through the public setters before the construction under test runs on the SAME object
+            K = make_context(case, hist['pre_onames'], hist['pre_anames'])
+            t = case['table']
+            wa, wie = hist['warm']
+            construct(K, wa, wie, 2 ** min(len(t), len(t[0])) + 1, case)
+            if hist['rename'] in ('objs', 'both'):
+                K.object_names = [oname(k) for k in case['onames']]
+            if hist['rename'] in ('attrs', 'both'):
+                K.attribute_names = [aname(k) for k in case['anames']]
+        return construct(K, case['algo'], case['ie'], case['lmax'], case)
     return list(guarded(go, timeout_s=30))
 
 
@@ -187,6 +208,8 @@ def stats(case):
             'algo': ALGO_NAMES[case['algo']] + ('' if case['algo'] not in (2, 8, 13) else ' ie=%s' % case['ie']),
             'backend': case['backend'], 'kind': case.get('kind', ''),
             'concepts': nc if nc < 8 else ('8-15' if nc < 16 else ('16-63' if nc < 64 else '>=64')),
+            'history': ('none' if not case.get('hist') else
+                        'renamed %s after warm-up %s' % (case['hist']['rename'], ALGO_NAMES[case['hist']['warm'][0]])),
             'lmax': ('n/a' if case['algo'] not in (3, 7, 14) else
                      ('= #concepts' if case['lmax'] == nc else '> #concepts'))}
 
@@ -242,6 +265,53 @@ def table_cases(rng, t, kind, runs=LATTICE_RUNS_DEFAULT, n_from_objects=2, rotat
     return out
 
 
+HIST_RUNS = [(1, None), (4, None), (12, None), (1, None), (4, None), (0, None), (2, True), (2, False), (3, None),
+             (5, None), (6, None), (7, None), (8, None), (11, None), (13, False), (14, None)]
+WARM_RUNS = [(1, None), (4, None), (1, None), (0, None), (2, False), (3, None), (6, None), (12, None)]
+
+
+def history_cases(rng, t, kind, n=1):
+    """Rename-history stream: the context is built under other names, mined once by a warm-up construction,
+    renamed through the public setters (objects only / attributes only / both) and then mined by the case's
+    construction on the same object; the judgement is against the (stateless) model of the FINAL context."""
+    h, w = len(t), len(t[0])
+    nc = n_concepts(t)
+    out = []
+    for _ in range(n):
+        a, ie = rng.choice(HIST_RUNS)
+        warm = rng.choice(WARM_RUNS + [(a if a < 9 else 1, ie)])
+        if nc > LINDIG_CAP and (a in (0, 2, 8, 11, 13) or warm[0] in (0, 2, 8, 11, 13)):
+            a, ie, warm = 4, None, (1, None)
+        if nc > LATTICE_CAP and a >= 11:
+            a, ie = 1, None
+        ids = rng.sample(range(60), 2 * (h + w))
+        onames, pre_on = ids[:h], ids[h:2 * h]
+        anames, pre_an = ids[2 * h:2 * h + w], ids[2 * h + w:]
+        mode = rng.choice(['objs', 'attrs', 'both', 'both'])
+        if mode == 'objs':
+            pre_an = anames
+        if mode == 'attrs':
+            pre_on = onames
+        c = _mk(rng.choice(BACKENDS), t, a, ie, _lmax(rng, t) if a in (3, 7, 14) else 0,
+                onames=onames, anames=anames, kind=kind)
+        c['hist'] = {'pre_onames': pre_on, 'pre_anames': pre_an, 'warm': list(warm), 'rename': mode}
+        out.append(c)
+    return out
+
+
+def shaped_tables(rng, n_each, dim):
+    """Random tables of forced shape: tall, square, wide."""
+    out = []
+    for _ in range(n_each):
+        for shape in ('tall', 'square', 'wide'):
+            a, b = rng.randint(2, dim), rng.randint(2, dim)
+            lo, hi = min(a, b), max(a, b)
+            h, w = {'tall': (hi + 1, lo), 'square': (lo, lo), 'wide': (lo, hi + 1)}[shape]
+            p = rng.choice([0.3, 0.5, 0.7])
+            out.append(([[rng.random() < p for _ in range(w)] for _ in range(h)], 'hist-' + shape))
+    return out
+
+
 def scale_tables(max_n):
     """Contranominal (2^n concepts), nominal, ordinal, interordinal-like and degenerate tables."""
     out = []
@@ -294,6 +364,9 @@ def generate(rng, tier):
         mh, mw = rng.choice(dims)
         t, kind = gen.random_table(rng, mh, mw)
         cases += table_cases(rng, t, kind, n_lattice=2 if tier == 'thorough' else 1)
+        cases += history_cases(rng, t, kind, n=2 if tier == 'thorough' else 1)
+    for t, kind in shaped_tables(rng, 400 if tier == 'thorough' else 40, 7 if tier == 'thorough' else 6):
+        cases += history_cases(rng, t, kind, n=3)
     return cases
 
 
@@ -313,6 +386,21 @@ def shrink(case):
                 c['lmax'] = 2 ** min(len(t), len(t[0]))
             if c['algo'] != 9:
                 c['arg'] = []
+            if c.get('hist'):
+                hh = dict(c['hist'])
+                hh['pre_onames'] = ([100 + k for k in c['onames']] if hh['rename'] in ('objs', 'both')
+                                    else list(c['onames']))
+                hh['pre_anames'] = ([100 + k for k in c['anames']] if hh['rename'] in ('attrs', 'both')
+                                    else list(c['anames']))
+                c['hist'] = hh
+            out.append(c)
+    if case.get('hist'):
+        c = dict(case)
+        c['hist'] = None            # is the history needed at all?
+        out.append(c)
+        if case['hist']['warm'][0] != 4:
+            c = dict(case)
+            c['hist'] = dict(case['hist'], warm=[4, None])
             out.append(c)
     if case['algo'] in (9, 10):
         v = case['arg']
